@@ -705,6 +705,8 @@ struct ResSpec {
     payload: u64,
     /// gs: /K references (prim); font: one target (prim); xobject: one form (ref); others: one target, never followed
     kids: Vec<u64>,
+    /// oracle documents only: the entry's value verbatim
+    raw: Option<String>,
 }
 
 #[derive(Clone, Copy, Debug, PartialEq)]
@@ -739,6 +741,7 @@ fn res_dict_text(res: &[ResSpec]) -> String {
         s.push_str(&format!(" /{} <<", RES_KINDS[kind]));
         for e in es {
             let n = res_name(kind, e.name);
+            if let Some(raw) = &e.raw { s.push_str(&format!(" /{} {}", n, raw)); continue; }
             match kind {
                 0 => s.push_str(&format!(" /{} << /Type /ExtGState /LW 2 /P {} /K [{}] >>", n, e.payload, refs_txt(&e.kids))),
                 3 => s.push_str(&format!(" /{} /DeviceRGB", n)),
@@ -777,7 +780,12 @@ fn page_model(p: &PSpec) -> String {
         OpSpec::Other(t) => format!("o{}", t),
     }).collect();
     let res: Vec<String> = p.res.iter().map(|r| {
-        let kids: Vec<(char, u64)> = match r.kind { 0 | 1 => r.kids.iter().map(|t| ('p', *t)).collect(), 2 => r.kids.iter().map(|t| ('t', *t)).collect(), _ => vec![] };
+        let kids: Vec<(char, u64)> = match r.kind {
+            0 | 1 => r.kids.iter().map(|t| ('p', *t)).collect(),
+            2 => r.kids.iter().map(|t| ('t', *t)).collect(),
+            6 => r.kids.iter().map(|t| ('r', *t)).collect(), // MaybeRef<Dictionary>: clone_rcref
+            _ => vec![],
+        };
         let payload = if r.kind == 0 { r.payload } else { 0 };
         format!("{}.{}.{}:{}", r.kind, r.name, payload, edges_str(&kids))
     }).collect();
@@ -929,7 +937,7 @@ fn random_pspec(rng: &mut Rng, g: &Graph, all_kinds: bool) -> PSpec {
             3 => vec![],
             _ => if ids.is_empty() { continue } else { vec![*rng.pick(&ids)] },
         };
-        res.push(ResSpec { kind, name, payload: 1000 + rng.below(9000), kids });
+        res.push(ResSpec { kind, name, payload: 1000 + rng.below(9000), kids, raw: None });
     }
     let mut ops = vec![];
     for _ in 0..rng.below(8) {
@@ -1794,12 +1802,19 @@ fn rich_pages(rng: &mut Rng, g: &Graph, rich: &Rich, kinds_all: bool) -> Vec<PSp
     let np = 1 + rng.below(4);
     // a pool of resource entries shared between the pages
     let mut pool: Vec<ResSpec> = vec![];
-    for (i, f) in rich.fonts.iter().enumerate() { pool.push(ResSpec { kind: 1, name: 1 + i as u64, payload: 0, kids: vec![*f] }); }
-    for (i, x) in rich.images.iter().chain(rich.forms.iter()).enumerate() { pool.push(ResSpec { kind: 2, name: 1 + i as u64, payload: 0, kids: vec![*x] }); }
-    for i in 0..2u64 { pool.push(ResSpec { kind: 0, name: 1 + i, payload: 7000 + i, kids: (0..rng.below(3)).filter_map(|_| if gids.is_empty() { None } else { Some(*rng.pick(&gids)) }).collect() }); }
+    for (i, f) in rich.fonts.iter().enumerate() { pool.push(ResSpec { kind: 1, name: 1 + i as u64, payload: 0, kids: vec![*f], raw: None }); }
+    for (i, x) in rich.images.iter().chain(rich.forms.iter()).enumerate() { pool.push(ResSpec { kind: 2, name: 1 + i as u64, payload: 0, kids: vec![*x], raw: None }); }
+    for i in 0..2u64 { pool.push(ResSpec { kind: 0, name: 1 + i, payload: 7000 + i, kids: (0..rng.below(3)).filter_map(|_| if gids.is_empty() { None } else { Some(*rng.pick(&gids)) }).collect(), raw: None }); }
+    // ExtGState entries with typed fields: soft mask (dictionary with a form), blend mode, dash, font
+    if !rich.forms.is_empty() {
+        pool.push(ResSpec { kind: 0, name: 5, payload: 0, kids: vec![], raw: Some(format!("<< /Type /ExtGState /CA 0.5 /ca 0.25 /BM /Multiply /SMask << /Type /Mask /S /Luminosity /G {} 0 R >> /AIS false >>", rng.pick(&rich.forms))) });
+    }
+    pool.push(ResSpec { kind: 0, name: 6, payload: 0, kids: vec![], raw: Some("<< /LW 1.5 /LC 1 /LJ 2 /ML 4.5 /D [[3 2] 0] /RI /Perceptual /OP true /op false /OPM 1 /SMask /None /TK true >>".to_string()) });
+    // (no /Font [ref size] in an ExtGState: that is the one place where a font is cloned as a typed `Font`, and the
+    //  typed FontDescriptor drops /Type and unknown keys on writing — typed round trips belong to C15 / C19)
     if kinds_all {
-        pool.push(ResSpec { kind: 3, name: 1, payload: 0, kids: vec![] });
-        for (i, o) in rich.ocgs.iter().enumerate() { pool.push(ResSpec { kind: 6, name: 1 + i as u64, payload: 0, kids: vec![*o] }); }
+        pool.push(ResSpec { kind: 3, name: 1, payload: 0, kids: vec![], raw: None });
+        for (i, o) in rich.ocgs.iter().enumerate() { pool.push(ResSpec { kind: 6, name: 1 + i as u64, payload: 0, kids: vec![*o], raw: None }); }
     }
     (0..np).map(|_| {
         let mut res: Vec<ResSpec> = pool.iter().filter(|_| rng.chance(2, 3)).cloned().collect();
@@ -1841,10 +1856,16 @@ fn witnesses() -> Vec<ImportCase> {
     let mut g = Graph::new();
     g.insert(100, GNode { ty: NT::Dict, k: vec![], a: None, b: None });
     // D40: one page per category that `deep_clone_op` does not look at
-    for (kind, label) in [(3usize, "ColorSpace"), (4, "Pattern"), (5, "Shading"), (6, "Properties")] {
-        let p = base(vec![ResSpec { kind, name: 1, payload: 0, kids: vec![100] }, ResSpec { kind: 0, name: 1, payload: 5, kids: vec![] }], vec![OpSpec::Other(0), OpSpec::Use(0, 1), OpSpec::Use(kind, 1), OpSpec::Other(1)], vec![]);
+    for (kind, label) in [(3usize, "ColorSpace"), (4, "Pattern"), (5, "Shading")] {
+        let p = base(vec![ResSpec { kind, name: 1, payload: 0, kids: vec![100], raw: None }, ResSpec { kind: 0, name: 1, payload: 5, kids: vec![], raw: None }], vec![OpSpec::Other(0), OpSpec::Use(0, 1), OpSpec::Use(kind, 1), OpSpec::Other(1)], vec![]);
         let doc = page_doc(&[p], &g, &[], PLAIN);
         out.push(ImportCase { label: format!("witness D40 {}", label), case: json!({"kind": "import", "doc": hex(&doc), "password": "-", "pages": [0]}), child: true, nontrivial: true });
+    }
+    // D40, /Properties part (fixed): BDC with a name operand
+    {
+        let p = base(vec![ResSpec { kind: 6, name: 1, payload: 0, kids: vec![100], raw: None }], vec![OpSpec::Other(0), OpSpec::Use(6, 1), OpSpec::Other(1)], vec![]);
+        let doc = page_doc(&[p], &g, &[], PLAIN);
+        out.push(ImportCase { label: "regression D40 Properties".into(), case: json!({"kind": "import", "doc": hex(&doc), "password": "-", "pages": [0], "expect": "success"}), child: true, nontrivial: true });
     }
     // D41 (fixed): a page-level entry that leads into a reference cycle; importing must end (with an error)
     let mut gc = Graph::new();
@@ -1854,7 +1875,7 @@ fn witnesses() -> Vec<ImportCase> {
     out.push(ImportCase { label: "regression D41 cycle below a page entry".into(), case: json!({"kind": "import", "doc": hex(&doc), "password": "-", "pages": [0], "expect": "no-success"}), child: true, nontrivial: true });
     let mut gs = Graph::new();
     gs.insert(100, GNode { ty: NT::Stm, k: vec![100], a: None, b: None });
-    let doc = page_doc(&[base(vec![ResSpec { kind: 1, name: 1, payload: 0, kids: vec![100] }], vec![OpSpec::Use(1, 1)], vec![])], &gs, &[], PLAIN);
+    let doc = page_doc(&[base(vec![ResSpec { kind: 1, name: 1, payload: 0, kids: vec![100], raw: None }], vec![OpSpec::Use(1, 1)], vec![])], &gs, &[], PLAIN);
     out.push(ImportCase { label: "regression D41 self-referencing font object".into(), case: json!({"kind": "import", "doc": hex(&doc), "password": "-", "pages": [0], "expect": "no-success"}), child: true, nontrivial: true });
     // D46 (fixed): /Resources object 101 reached as a plain reference (page entry /K) by the first page, then as
     // the /Resources (RcRef) of a form used by the second page
@@ -1863,7 +1884,7 @@ fn witnesses() -> Vec<ImportCase> {
     gr.insert(102, GNode { ty: NT::Dict, k: vec![], a: None, b: None });
     gr.insert(103, GNode { ty: NT::Form, k: vec![], a: Some(101), b: None });
     let p1 = base(vec![], vec![OpSpec::Other(0), OpSpec::Other(1)], vec![101]);
-    let p2 = base(vec![ResSpec { kind: 2, name: 1, payload: 0, kids: vec![103] }], vec![OpSpec::Use(2, 1)], vec![]);
+    let p2 = base(vec![ResSpec { kind: 2, name: 1, payload: 0, kids: vec![103], raw: None }], vec![OpSpec::Use(2, 1)], vec![]);
     let doc = page_doc(&[p1, p2], &gr, &[], PLAIN);
     // D47 (fixed): images whose filter chain has parameters beyond the first filter / two parameterised filters
     let head = "/Type /XObject /Subtype /Image /Width 2 /Height 2 /ColorSpace /DeviceRGB /BitsPerComponent 8";
@@ -1871,7 +1892,7 @@ fn witnesses() -> Vec<ImportCase> {
     let img1 = stream_body(&format!("{} /Filter [/ASCIIHexDecode /FlateDecode] /DecodeParms [null << /Predictor 12 /Colors 3 /BitsPerComponent 8 /Columns 2 >>]", head), &ascii_hex(&zlib(&png_up_rows(&rows))));
     let img2 = stream_body(&format!("{} /Filter [/FlateDecode /FlateDecode]", head), &zlib(&zlib(&rows.concat())));
     for (label, img) in [("regression D47 predictor parameters of the second filter", img1), ("regression D47 two filters with parameters", img2)] {
-        let p = base(vec![ResSpec { kind: 2, name: 1, payload: 0, kids: vec![200] }], vec![OpSpec::Other(0), OpSpec::Use(2, 1), OpSpec::Other(1)], vec![]);
+        let p = base(vec![ResSpec { kind: 2, name: 1, payload: 0, kids: vec![200], raw: None }], vec![OpSpec::Other(0), OpSpec::Use(2, 1), OpSpec::Other(1)], vec![]);
         let doc = page_doc(&[p], &Graph::new(), &[(200, img, true)], PLAIN);
         out.push(ImportCase { label: label.into(), case: json!({"kind": "import", "doc": hex(&doc), "password": "-", "pages": [0], "expect": "success"}), child: true, nontrivial: true });
     }
